@@ -479,6 +479,12 @@ def run(ch, ctx, fault=None):
                 ctx.probe("ghost_free_redraws")
             elif op == "draw_interrupted":
                 # Ctrl-C lands inside a redraw and the application carries on with its loop
+                if force_new[0]:
+                    # (as for clear_images() below: every cut-short redraw may change the
+                    # disguise of the lines of an image that urwid has on record from the last
+                    # COMPLETED redraw, and the disguise cycles modulo 3 - at most one such
+                    # operation between two completed redraws)
+                    continue
                 top = build(layout)
                 try:
                     canvas = top.render((size[0], size[1]), focus=True)
